@@ -32,6 +32,27 @@ pub struct Atom {
 /// `!(T.a > 1)` and `T.a <= 1` are different conditions)
 const NAN: i64 = i64::MIN + 7;
 
+thread_local! {
+    /// text mode of the run on this thread (ReteTrace::text_b): field `b` holds a TEXT, one of six names
+    static TEXT_B: std::cell::Cell<bool> = const { std::cell::Cell::new(false) };
+}
+
+/// the six texts field `b` takes in text mode — among them the names of the fact's own fields
+const B_NAMES: [&str; 6] = ["x", "y", "a", "uid", "b", "zz"];
+
+fn b_name(v: i64) -> &'static str {
+    B_NAMES[v.rem_euclid(6) as usize]
+}
+
+/// field b as the engine gets it
+fn fv_b(v: i64) -> FactValue {
+    if TEXT_B.with(|t| t.get()) {
+        FactValue::String(b_name(v).to_string())
+    } else {
+        fv(v)
+    }
+}
+
 fn fv(v: i64) -> FactValue {
     if v == NAN {
         FactValue::Float(f64::NAN)
@@ -79,6 +100,9 @@ pub struct ReteTrace {
     /// semantically it is still one rule
     #[serde(default)]
     pub reload: bool,
+    /// field `b` holds a text (one of six names, the fact's own field names among them), compared with == / !=
+    #[serde(default)]
+    pub text_b: bool,
 }
 
 pub struct ReteWorld;
@@ -102,6 +126,11 @@ fn field_str(f: u8) -> &'static str {
 
 fn atom_holds(at: &Atom, a: i64, b: i64) -> bool {
     let v = if at.field % 2 == 0 { a } else { b };
+    if at.field % 2 == 1 && TEXT_B.with(|t| t.get()) {
+        // text mode: field b is compared as a text, with == and != only
+        let eq = b_name(v) == b_name(at.lit);
+        return (if at.op % 2 == 0 { eq } else { !eq }) != at.neg;
+    }
     // NaN is unequal to everything and neither below nor above anything
     let plain = if v == NAN {
         at.op % 6 == 1
@@ -127,11 +156,24 @@ fn grl_of(i: usize, r: &RRule) -> String {
     let cond = r
         .cond
         .iter()
-        .map(|conj| conj.iter().map(|at| if at.neg { format!("!({ty}.{} {} {})", field_str(at.field), op_str(at.op), at.lit) } else { format!("{ty}.{} {} {}", field_str(at.field), op_str(at.op), at.lit) }).collect::<Vec<_>>().join(" && "))
+        .map(|conj| {
+            conj.iter()
+                .map(|at| {
+                    let (op, lit) = if at.field % 2 == 1 && TEXT_B.with(|t| t.get()) { (op_str(at.op % 2), format!("\"{}\"", b_name(at.lit))) } else { (op_str(at.op), at.lit.to_string()) };
+                    if at.neg {
+                        format!("!({ty}.{} {op} {lit})", field_str(at.field))
+                    } else {
+                        format!("{ty}.{} {op} {lit}", field_str(at.field))
+                    }
+                })
+                .collect::<Vec<_>>()
+                .join(" && ")
+        })
         .collect::<Vec<_>>()
         .join(" || ");
     let action = match &r.action {
         RAction::Nothing => "Log(\"fired\");".to_string(),
+        RAction::SetField(f, v) if *f % 2 == 1 && TEXT_B.with(|t| t.get()) => format!("{ty}.b = \"{}\";", b_name(*v)),
         RAction::SetField(f, v) => format!("{ty}.{} = {v};", field_str(*f)),
         RAction::Retract => format!("retract(${ty});"),
     };
@@ -172,6 +214,7 @@ fn viol(clause: &str, site: &str, sig: &str, msg: String, step: usize) -> Violat
 fn int_of(v: Option<&FactValue>) -> Option<i64> {
     match v {
         Some(FactValue::Integer(i)) => Some(*i),
+        Some(FactValue::String(s)) if TEXT_B.with(|t| t.get()) => B_NAMES.iter().position(|n| n == s).map(|p| p as i64),
         Some(FactValue::Float(f)) if f.is_nan() => Some(NAN),
         Some(FactValue::Float(f)) if f.fract() == 0.0 => Some(*f as i64),
         _ => None,
@@ -233,6 +276,7 @@ fn build(t: &ReteTrace, log: &Arc<Mutex<Vec<Firing>>>) -> Result<IncrementalEngi
 
 /// One pass of the trace under the hash seed of the current thread.
 fn run_pass(t: &ReteTrace, obs: &mut Obs, primary: bool) -> Result<(), Violation> {
+    TEXT_B.with(|x| x.set(t.text_b));
     clock::install(1_700_000_000_000);
     clock::set_mono_tick_pattern(t.mono_ticks.clone());
     let log: Arc<Mutex<Vec<Firing>>> = Arc::new(Mutex::new(Vec::new()));
@@ -256,7 +300,7 @@ fn run_pass(t: &ReteTrace, obs: &mut Obs, primary: bool) -> Result<(), Violation
                 let uid = 1000 + facts.len() as i64;
                 let mut d = TypedFacts::new();
                 d.set("a", fv(*a));
-                d.set("b", fv(*b));
+                d.set("b", fv_b(*b));
                 d.set("uid", uid);
                 let h = engine.insert(tname(*ty).to_string(), d);
                 if let Some(mx) = ids.iter().max() {
@@ -274,7 +318,7 @@ fn run_pass(t: &ReteTrace, obs: &mut Obs, primary: bool) -> Result<(), Violation
                 let k = h % facts.len();
                 let mut d = TypedFacts::new();
                 d.set("a", fv(*a));
-                d.set("b", fv(*b));
+                d.set("b", fv_b(*b));
                 d.set("uid", facts[k].uid);
                 let was_sat: Vec<bool> = t.rules.iter().map(|r| r.ty == facts[k].ty && cond_holds(r, facts[k].a, facts[k].b)).collect();
                 let r = engine.update(FactHandle::new(ids[k]), d);
@@ -662,7 +706,28 @@ impl World for ReteWorld {
         // one run in ten with three or more rules over two or more types: the first rule (if no-loop) is loaded
         // again after the others
         let reload = rules.len() >= 3 && rules[0].no_loop && rules.iter().any(|r| r.ty != rules[0].ty) && rng.chance(1, 5);
-        ReteTrace { hash_seed, alt_hash_seeds, rules, ops, mono_ticks, reload }
+        // one run in six (integer magnitude 0, no NaN): field b is a text
+        let text_b = base == 0 && !nans && rng.chance(1, 6);
+        let (mut rules, mut ops) = (rules, ops);
+        if text_b {
+            // the values of b are indices into the six names
+            for r in rules.iter_mut() {
+                for at in r.cond.iter_mut().flatten().filter(|at| at.field % 2 == 1) {
+                    at.lit = at.lit.rem_euclid(6);
+                }
+                if let RAction::SetField(f, v) = &mut r.action {
+                    if *f % 2 == 1 {
+                        *v = v.rem_euclid(6);
+                    }
+                }
+            }
+            for o in ops.iter_mut() {
+                if let ROp::Insert { b, .. } | ROp::Update { b, .. } = o {
+                    *b = b.rem_euclid(6);
+                }
+            }
+        }
+        ReteTrace { hash_seed, alt_hash_seeds, rules, ops, mono_ticks, reload, text_b }
     }
 
     fn hash_seed(&self, t: &ReteTrace) -> u64 {
@@ -680,6 +745,9 @@ impl World for ReteWorld {
         obs.fp_str(&serde_json::to_string(t).unwrap_or_default());
         if t.reload {
             obs.count("probe.first_rule_loaded_a_second_time");
+        }
+        if t.text_b {
+            obs.count("probe.text_field_whose_values_name_the_fact_s_fields");
         }
         run_pass(t, obs, true)?;
         // the same history under further hash seeds must satisfy the same clauses
